@@ -194,7 +194,9 @@ def run(chk, replay=None):
         i = ctx[rid]
         if i.get("carrier"):
             case = {"record": rid, **{k: v for k, v in i.items() if k in ("cls", "obj", "what", "res")}}
-            if i.get("defaults_omitted"):
+            if i.get("folded_argument"):
+                chk.violation(f"unevaluated.doit:non-default-attribute-with-folded-argument:{i['cls']}", f"{i['cls']}: {i['obj']}: {i['what']}", case)
+            elif i.get("defaults_omitted"):
                 chk.violation(f"unevaluated.{i['opname']}:optional-arguments-omitted:{clause}:{i['cls']}", f"{i['cls']}: {i['obj']}.{i['what']} = {i.get('res')} ({clause})", case)
             elif i.get("keyword_pair"):
                 chk.violation(f"unevaluated.__new__:keyword-construction-differs-from-positional:{i['cls']}", f"{i['cls']}: {i['obj']} built positionally vs {i['res']}: == is {byid[rid]['eq']}, equal hash is {byid[rid]['hash']}", case)
